@@ -797,6 +797,8 @@ class Engine(ExprMixin, CallMixin):
             if con.facts is not None:
                 for label, b in con.facts(Ctx(self, st, st, args)):
                     st = st.assume(b)
+                    for cj in _flatten_and(b):
+                        self.hyp_labels[cj.get_id()] = 'fact:' + label
             self.entry_state = st
             self.entry_args = args
             # vacuity: the precondition must be satisfiable
